@@ -348,7 +348,11 @@ def _elt_member(node):
 
 
 def map_over_seq(it, node, seqv, sub):
-    name = _elt_member(node)
+    try:
+        name = _elt_member(node)
+    except Unsupported:
+        # not a plain VAR.member projection: a pointwise-defined sequence
+        return seqmap_to_seq(it, IterSource('genexpr0', (node, seqv, sub)))
     return IterSource('seqmap', (node, seqv, sub, name))
 
 
@@ -373,7 +377,53 @@ def fold_join_seq(it, sv):
 
 
 def seqmap_to_seq(it, src):
-    raise Unsupported('materialising a mapped symbolic sequence')
+    """[elt(x) for x in xs] / list(elt(x) for x in xs) over a symbolic sequence xs: a fresh sequence
+    ys with |ys| == |xs|, defined pointwise -- ys[i] == elt(xs[i]) is assumed for the indices a
+    specification asks about (`map_instance`).  The element type of ys is found by evaluating
+    elt once on an arbitrary sample element."""
+    node, xs, sub = src.data[0], src.data[1], src.data[2]
+    g = node.generators[0]
+    if len(node.generators) != 1 or g.ifs:
+        raise Unsupported('materialising a filtered / nested comprehension over a symbolic sequence')
+    p = it.p
+    sample = from_term(it, p.fresh('sample', it.types.sort_of(xs.elem)), xs.elem)
+    fr = it.comp_frame(sub)
+    it.assign(g.target, sample, fr)
+    v = it.eval(node.elt, fr)
+    if isinstance(v, Obj):
+        rec = it.types.record_of_class(v.cls)
+        if rec is None:
+            raise Unsupported('mapped sequence of %s objects (no record type)' % v.cls.name)
+        elem = rec.key
+    elif smt.is_str_term(v) or isinstance(v, str):
+        elem = 'str'
+    elif is_intlike(v):
+        elem = 'int'
+    elif smt.is_bytes_term(v) or isinstance(v, bytes):
+        elem = 'bytes'
+    else:
+        raise Unsupported('mapped sequence of %r' % (v,))
+    ys = SeqVal(p.fresh('mapped', it.types.sort_of('Seq[%s]' % elem)), elem)
+    p.assume(z3.Length(ys.term) == z3.Length(xs.term))
+    p.ghost.setdefault('_mapped', {})[ys.term.get_id()] = (ys, node, xs, sub)
+    return ys
+
+
+def map_instance(it, ys, i):
+    """for a sequence produced by seqmap_to_seq and an index 0 <= i < |ys| (the caller's
+    obligation): evaluate the comprehension's element expression on xs[i], assume it is ys[i]
+    and return (xs[i], the evaluated element)"""
+    ent = it.p.ghost.get('_mapped', {}).get(ys.term.get_id())
+    if ent is None:
+        raise Unsupported('map_instance: not a mapped sequence')
+    _, node, xs, sub = ent
+    g = node.generators[0]
+    x = from_term(it, elem_at(it, xs, int_term(i)), xs.elem)
+    fr = it.comp_frame(sub)
+    it.assign(g.target, x, fr)
+    v = it.eval(node.elt, fr)
+    it.p.assume(elem_at(it, ys, int_term(i)) == to_term(it, v, ys.elem))
+    return x, v
 
 
 # ----------------------------------------------------------------------- lemma schemas
